@@ -103,7 +103,7 @@ def check_program(spec):
     cands = deviations.triggered(cp.cast, cp.ops, cp)
     res["triggered"] = [r.id for r in cands]
     expl = None
-    if any(b[1] == "il-error" for b in bad):
+    if any(b[1] == "il-error" and not b[2].startswith("horizon") for b in bad):
         # ill-sorted / unexecutable IL: explained only by a static rule whose signature matches
         msgs = sorted(set(b[2] for b in bad if b[1] == "il-error"))
         st = deviations.explain_il_errors(msgs, cands, cp)
@@ -136,11 +136,17 @@ def agrees_under(cp, slots, states, il_results, D):
     for vec, ires in zip(states, il_results):
         if ires is None:
             continue
-        if ires[0] == "err":
+        if ires[0] == "err" and ires[1] != "horizon":
             continue  # covered by the static rule in `require`
         try:
             cobs = cp.run_c(slots, vec, D)
+        except ceval.CHorizon:
+            if ires[0] == "err":
+                continue  # both sides do not terminate within the horizon
+            return False
         except (ceval.CUndefined, ceval.CUnsupported):
+            return False
+        if ires[0] == "err":
             return False
         if prog.diff_obs(cobs, ires[1], ires[2]):
             return False
@@ -215,3 +221,27 @@ def replay(ctx, path, bucket="replay", extra=None):
     if r["status"] == "rejected":
         print("rejected:", r.get("exc"), r.get("msg"))
     return 0
+
+
+def check_rejections(ctx, specs, results, name):
+    """Acceptance side: a program of a supported alphabet that is rejected although the committed
+    baseline lists it as accepted is reported (a supported construct turned into a rejection).
+    VERIF_MAKE_BASELINE=1 rewrites the baseline (deliberate act, never done by a normal run)."""
+    import json
+    import os
+
+    path = os.path.join(core.VERIF, "baselines", "rejected_%s_%s.json" % (name, ctx.tier))
+    now = sorted(r["text"] for r in results if r["status"] == "rejected")
+    if os.environ.get("VERIF_MAKE_BASELINE") == "1":
+        os.makedirs(os.path.dirname(path), exist_ok=True)
+        json.dump(now, open(path, "w"), indent=0)
+        ctx.log("baseline of rejected programs written: %d" % len(now))
+    if not os.path.exists(path):
+        raise core.HarnessError("missing baseline %s (run once with VERIF_MAKE_BASELINE=1)" % path)
+    base = set(json.load(open(path)))
+    n = 0
+    for r in results:
+        if r["status"] == "rejected" and r["text"] not in base:
+            n += 1
+            ctx.report({"program": r["text"], "spec": r.get("spec"), "rejected_with": r["exc"], "msg": r["msg"]}, None, what="construct of the supported alphabet is rejected: %s (%s)" % (r["text"][-140:], r["exc"]))
+    return {"rejected_in_baseline": len(base), "newly_rejected": n}
